@@ -76,17 +76,20 @@ def unwritten_asm():
 
 
 # the system-call text follows the OPR SVC trace prefix on the same line
-CALLS = [(re.compile(r'OPR\s+3\s+exit (-?\d+)$'), 0), (re.compile(r'OPR\s+3\s+write (-?\d+) to simout\((-?\d+)\)$'), 1),
-         (re.compile(r'OPR\s+3\s+read (-?\d+) to mem\[[0-9a-f]+\]$'), 2)]
+# what -t shows of a system call.  The text after the mnemonic is printed AFTER the call has been carried out, so a byte the program
+# writes to standard output sits between "OPR  3" and "write ..." (it may be a newline): at most one arbitrary byte is allowed there
+CALLRX = re.compile(r'OPR\s+3\s+(?:exit (-?\d+)|[\s\S]?write (-?\d+) to simout\((-?\d+)\)|read (-?\d+) to mem\[[0-9a-f]+\])\n')
 
 
 def parse_calls(text):
     out = []
-    for line in text.split('\n'):
-        for rx, k in CALLS:
-            m = rx.search(line)
-            if m:
-                out.append([k] + [xlib.w32(int(g)) for g in m.groups()])
+    for m in CALLRX.finditer(text):
+        if m.group(1) is not None:
+            out.append([0, xlib.w32(int(m.group(1)))])
+        elif m.group(2) is not None:
+            out.append([1, xlib.w32(int(m.group(2))), xlib.w32(int(m.group(3)))])
+        else:
+            out.append([2, xlib.w32(int(m.group(4)))])
     return out
 
 
@@ -112,6 +115,10 @@ def run(tier, replay=None):
             if r['status'] in ('exit', 'limit') and 'img' in r and r['steps'] <= (20000 if tier == "quick" else 200000):
                 images.append((c['id'], struct.pack('<I', r['hdr']) + bytes(r['img']) + bytes(r['dbg']), c['input'], c['src']))
         acases = [{'id': i, 'src': s, 'prog': p} for i, p, s in unwritten_asm()] + asmlib.random_cases(rng, nasm)
+        # an image of more than 200000 bytes and of more than 2^19 bytes whose last words matter (a loader that confuses bytes and words, or
+        # clamps, loses them); C06's own program
+        from checks import c06
+        acases += [{'id': i, 'src': s_, 'prog': p} for i, p, s_ in c06.shim_programs() if i == 'shim:hugeimage']
         ares = asmlib.run_cases(aexe, acases, d, tag="c12a")
         for c, r in zip(acases, ares):
             if r['status'] == 'ok':
